@@ -113,8 +113,23 @@ def gen_gap(rng):
     elif rel == "overlapping":
         sh = "tr %s %s %s" % (R4(rng, .1, .6), R4(rng, -.3, .3), R4(rng, -.3, .3))
     else:
-        a, b = "cube 6 6 6 1", b
-        sh = "sc 0.25 0.25 0.25 tr %s %s %s" % (R4(rng, -1, 1), R4(rng, -1, 1), R4(rng, -1, 1))
+        v = rng.randrange(3)
+        if v == 0:      # inside a big convex solid
+            a = "cube 6 6 6 1"
+            sh = "sc 0.25 0.25 0.25 tr %s %s %s" % (R4(rng, -1, 1), R4(rng, -1, 1), R4(rng, -1, 1))
+        elif v == 1:    # inside the tube of a solid torus (genus 1)
+            a = "torus 3 1.2 8 6"          # polygonal tube: inscribed radius about 1.0 around the centre polygon of radius >= 2.77
+            b = rng.choice(["sphere 1 4", "cube 1 1 1 1", "tet"])
+            ang = rng.uniform(0, 2 * math.pi)
+            sh = "sc 0.12 0.12 0.12 tr %r %r 0.0" % (round(2.9 * math.cos(ang), 3), round(2.9 * math.sin(ang), 3))
+        else:           # inside the second component of a composed solid
+            a = "cube 1 1 1 1 cube 6 6 6 1 tr 10 0 0 compose"
+            sh = "sc 0.25 0.25 0.25 tr %r %s %s" % (round(10 + rng.uniform(-1, 1), 3), R4(rng, -1, 1), R4(rng, -1, 1))
+        if rng.random() < .5:
+            # operand order: the harness calls both M.MinGap(N) and N.MinGap(M); also swap the stack order
+            return "%s %s %s ; meas gap %s" % (b, sh, a, " ".join(repr(x) for x in (.05, .2, .4, 2.0))), "nested"
+        ls_n = (.05, .2, .4, 2.0)
+        return "%s %s %s ; meas gap %s" % (a, b, sh, " ".join(repr(x) for x in ls_n)), "nested"
     if rel == "separated":
         # d approximates the true gap (exact for lattice boxes along x): search lengths below, just above, below twice, far above
         ls = sorted(set(round(d * f, 4) for f in (.6, 1.1, 1.4, 1.9, 4.0))) if lat else [.5, 1.5, 3.0, 5.0, 8.0]
@@ -152,6 +167,16 @@ def build_cases(cx):
     # for solids with triangles of legs <= ~1e-4 that are a positive distance apart (vertex above a face)
     fixed.append(("cube 0.0001 0.0001 0.0001 0 sphere 1e-05 4 tr 7e-05 2e-05 0.000111 ; meas gap 0.001", "gap-smallscale"))
     fixed.append(("cube 0.01 0.01 0.01 0 sphere 0.001 4 tr 0.007 0.002 0.0111 ; meas gap 0.1", "gap-separated"))
+    # nested solids with clearance ABOVE the search length: the answer is 0 (the solids intersect), in both operand
+    # orders (the harness evaluates M.MinGap(N) and N.MinGap(M)); inside a genus-1 solid; inside the 2nd component
+    fixed += [
+        ("cube 20 20 20 1 cube 1 1 1 1 ; meas gap 1.0 5.0 20.0", "gap-nested"),
+        ("cube 20 20 20 1 rot 10 20 30 tr 0.3 0.2 0.1 sphere 0.8 4 tr 1 2 3 ; meas gap 0.5 2.0", "gap-nested"),
+        ("torus 3 1.2 8 6 sphere 0.4 4 tr 3 0 0 ; meas gap 0.3 0.5 2.0", "gap-nested-genus1"),
+        ("cube 1 1 1 1 cube 6 6 6 1 tr 10 0 0 compose sphere 0.5 4 tr 10 0 0 ; meas gap 1.0 2.0 4.0", "gap-nested-2nd-component"),
+        ("sphere 0.5 4 tr 10 0 0 cube 1 1 1 1 cube 6 6 6 1 tr 10 0 0 compose ; meas gap 1.0 2.0", "gap-nested-2nd-component"),
+        ("cube 8 8 8 1 cube 6 6 6 1 sub cube 1 1 1 1 ; meas gap 1.0 3.0", "gap-in-cavity"),
+    ]
     for p, k in fixed:
         cases.append((str(len(cases)), "CASE %d %s" % (len(cases), p), k))
     for _ in range(n_solid):
